@@ -9,6 +9,7 @@ import Driver.DeepCopy
 import Driver.Spec
 import Driver.Val
 import Driver.Life
+import Driver.Conn
 /-! Line-protocol driver: one operation per input line, one canonical answer per output line. -/
 
 structure St where
@@ -31,6 +32,7 @@ def step (st : St) (line : String) : St × String :=
   | "spec" :: args => (st, Driver.Spec.handle args)
   | "val" :: args => (st, Driver.Val.handle args)
   | "life" :: args => (st, Driver.Life.handle args)
+  | "conn" :: args => (st, Driver.Conn.handle ("conn" :: args))
   | "conv" :: args => (st, Driver.Conv.handle args)
   | "prim" :: args => let (z, o) := Driver.Frame.handle st.z ("prim" :: args); ({ st with z := z }, o)
   | "z" :: args => let (z, o) := Driver.Frame.handle st.z ("z" :: args); ({ st with z := z }, o)
